@@ -157,6 +157,23 @@ impl Prop for C09 {
             let cmp = crate::lockstep::Compare { prop: "C09", trace: false, warnings: false, reenter_probe: false };
             match crate::lockstep::run_lockstep(&pc, cmp, ctx) {
                 Ok(o) => {
+                    // the same between any two consecutive PRINT records: the statements the model
+                    // executes from one to the next need at least as many calls (slack gained in one
+                    // part of the run cannot pay for a merged pair of statements in another)
+                    if o.print_marks.len() == o.model.print_marks.len() {
+                        let (r, m) = (&o.print_marks, &o.model.print_marks);
+                        for k in 0..r.len() {
+                            let (dr, dm) = if k == 0 { (r[0], m[0]) } else { (r[k] - r[k - 1], m[k].saturating_sub(m[k - 1])) };
+                            ctx.count("reach.turn_count_interval_compared");
+                            if dr < dm {
+                                return v(
+                                    "more-than-one-statement",
+                                    "fewer evaluating calls than statements between two PRINTs".into(),
+                                    format!("between printed record {} and {} the reference model executes {} statements, the interpreter used {} evaluating calls", k as i64 - 1, k, dm, dr),
+                                );
+                            }
+                        }
+                    }
                     if !o.capped {
                         let stmts = o.model.steps.saturating_sub(o.model.skiprest_steps);
                         ctx.count("reach.turn_count_compared");
